@@ -182,3 +182,9 @@ class ReqK:
 def reqvar(a, *rest):
   rec('reqvar', a, *rest)
   return (a,) + tuple(rest)
+
+
+@gin.configurable(module='vw')
+def lit(p=None, q=None):
+  rec('lit', p, q)
+  return (p, q)
